@@ -382,13 +382,16 @@ namespace Dune
     if(x==0)
       DUNE_THROW(Dune::MathError, "division by zero!");
 
+    // x may be *this (a /= a): keep the divisor while *this is reduced
+    const bigunsignedint<k> divisor(x);
+
     // better slow than nothing
     bigunsignedint<k> result(0);
 
-    while (*this>=x)
+    while (*this>=divisor)
     {
       ++result;
-      *this -= x;
+      *this -= divisor;
     }
 
     *this = result;
@@ -401,10 +404,13 @@ namespace Dune
     if(x==0)
       DUNE_THROW(Dune::MathError, "division by zero!");
 
+    // x may be *this (a %= a): keep the divisor while *this is reduced
+    const bigunsignedint<k> divisor(x);
+
     // better slow than nothing
-    while (*this>=x)
+    while (*this>=divisor)
     {
-      *this -= x;
+      *this -= divisor;
     }
 
     return *this;
